@@ -60,17 +60,27 @@ def fresh_v2_schema():
     return s
 
 
-def one_content(content):
+def one_content(content, symlink=False):
     viols, n_eval, samples = [], 0, []
     ref_schema = fresh_v2_schema()
     d = fsx.fresh_scratch("c20")
     p = os.path.join(d, "usage.sqlite")
+    if symlink:
+        # the configured path is a symbolic link to the real file (a volume mounted elsewhere)
+        vol = fsx.fresh_scratch("c20vol")
+        real = os.path.join(vol, "usage-real.sqlite")
+        make_v1(real, content)
+        os.symlink(real, p)
+        return symlink_case(content, d, p, real, ref_schema)
     make_v1(p, content)
     orig_bytes = open(p, "rb").read()
     orig_rows = rows_of(p)
     rec = fsx.Recorder(d)
     result, exc = rec.run(lambda: database.create_or_upgrade_usage_db(p))
     case0 = {"content": content, "crash_point": None}
+    aux = [x for x in rec.deleted if x.endswith(("-journal", "-wal", "-shm"))]
+    if aux:
+        viols.append(V("start-up-code-deleted-sqlite-recovery-files", {"case": case0, "deleted": aux}))
     if exc is not None:
         viols.append(V("upgrade-failed", {"case": case0, "exc": repr(exc)}))
         shutil.rmtree(d, ignore_errors=True)
@@ -109,7 +119,14 @@ def one_content(content):
                 viols.append(V("records-lost-after-crash", {"case": case}, {"phase": lab.split(" ")[0]}))
             # (2) simply starting again completes the upgrade
             try:
-                db = database.create_or_upgrade_usage_db(pp)
+                rec2 = fsx.Recorder(dd)
+                db, exc2 = rec2.run(lambda: database.create_or_upgrade_usage_db(pp))
+                aux2 = [x for x in rec2.deleted if x.endswith(("-journal", "-wal", "-shm"))]
+                if aux2:
+                    # only SQLite itself may remove its journal (after rolling it back)
+                    viols.append(V("start-up-code-deleted-sqlite-recovery-files", {"case": case, "deleted": aux2}, {}))
+                if exc2 is not None:
+                    raise exc2
                 db.close()
                 ok = schema_of(pp) == ref_schema and rows_of(pp) == final_rows
                 if not ok:
@@ -130,6 +147,43 @@ def one_content(content):
     samples.append({"content": content, "crash_points": labels, "distinct_images": len(images)})
     shutil.rmtree(d, ignore_errors=True)
     return viols, n_eval, len(images), samples
+
+
+def symlink_case(content, d, p, real, ref_schema):
+    viols = []
+    orig_bytes = open(real, "rb").read()
+    orig_rows = rows_of(real)
+    case = {"content": content, "crash_point": None, "path": "symlink"}
+    try:
+        database.create_or_upgrade_usage_db(p).close()
+    except Exception as e:    # noqa
+        return [V("upgrade-failed", {"case": case, "exc": repr(e)})], 1, 0, []
+    bak = p + "-backup-v1"
+    ok = os.path.exists(bak) and not os.path.islink(bak) and open(bak, "rb").read() == orig_bytes
+    if not ok:
+        viols.append(V("backup-not-a-byte-identical-copy", {"case": case, "backup_exists": os.path.lexists(bak),
+                                                             "backup_is_symlink": os.path.islink(bak)}, {"path": "symlink"}))
+    if schema_of(p) != ref_schema or rows_of(p) != orig_rows:
+        viols.append(V("upgrade-lost-or-changed-records", {"case": case}))
+    # interrupted after the backup: starting again must still work
+    d2 = fsx.fresh_scratch("c20b")
+    vol2 = fsx.fresh_scratch("c20volb")
+    real2 = os.path.join(vol2, "usage-real.sqlite")
+    with open(real2, "wb") as f:
+        f.write(orig_bytes)
+    p2 = os.path.join(d2, "usage.sqlite")
+    os.symlink(real2, p2)
+    shutil.copy(real2, p2 + "-backup-v1") if not viols else None
+    if os.path.islink(bak):
+        os.symlink(real2, p2 + "-backup-v1") if not os.path.lexists(p2 + "-backup-v1") else None
+    try:
+        database.create_or_upgrade_usage_db(p2).close()
+    except Exception as e:   # noqa
+        viols.append(V("retry-after-crash-failed", {"case": dict(case, crash_point="after the backup copy"),
+                                                    "exc": "%s: %s" % (type(e).__name__, e)}, {"exc": type(e).__name__}))
+    for x in (d, d2, os.path.dirname(real), vol2):
+        shutil.rmtree(x, ignore_errors=True)
+    return viols, 2, 2, [{"content": content, "path": "symlink"}]
 
 
 RULE = ("version-1 usage databases with contents {empty, 1 row, 50 rows, NULLs and 2^63-1 values, a status row}; "
@@ -153,6 +207,11 @@ def run(pid, tier, seed, args):
         n_eval += n
         n_img += ni
         samples += s
+    v, n, ni, s = one_content("fifty", symlink=True)
+    viols += v
+    n_eval += n
+    n_img += ni
+    samples += s
     known = runner.load_known()
     n_unknown, known_hit = runner.report("C20", viols, known, "c20", tier)
     cov = {"evaluations": n_eval, "distinct_nontrivial": n_img, "rule": RULE, "samples": samples[:4], "exhaustive": True,
